@@ -112,6 +112,18 @@ one(const struct codec *c, uint64_t bits, unsigned align)
     if (got != v)
         vh_fail("ref-value", "part=ref", "%s octets=%s align=%u got=%016" PRIx64 " expected=%016" PRIx64, c->name,
                 vh_hex(exp + align, (size_t)n), align, got, v);
+    /* the unsigned setters of the odd widths take a wider container and do not check that the value fits (the header
+     * says so, and the library's signed setters hand them sign-extended values): what gets stored is the value modulo
+     * 2^width, whatever the container holds above it */
+    if (c->kind == 'u' && (c->width == 24 || c->width == 40 || c->width == 48 || c->width == 56)) {
+        const uint64_t above = (bits * 0x9e3779b97f4a7c15ull) | 1ull; /* mixed bits, never all zero */
+        const uint64_t wide = bits | (above << c->width);
+        memcpy(buf, tmpl, 24);
+        ret = c->set(buf + align, wide);
+        if (ret != buf + align + n || memcmp(buf, exp, 24) != 0)
+            vh_fail("set-octets-wide-container", "part=set", "%s container=%016" PRIx64 " (value %016" PRIx64 " modulo 2^%d) align=%u buffer=%s expected=%s",
+                    c->name, c->width == 24 ? (uint64_t)(uint32_t)wide : wide, bits, c->width, align, vh_hex(buf, 24), vh_hex(exp, 24));
+    }
 }
 
 /* same on an exact-size object in the poisoned arena: any octet read or
